@@ -38,11 +38,11 @@ ESCAPE_CHARS = (
 )
 
 UNESCAPE_CHARS = (
-    ('&amp;', '&'),
     ('&lt;', '<'),
     ('&gt;', '>'),
     ('&quot;', '"'),
-    ('&apos;', "'")
+    ('&apos;', "'"),
+    ('&amp;', '&')
 )
 
 
